@@ -191,6 +191,23 @@ def gen(seed, tier, want=None):
         else:
             n = fix_needle(cfg, [norm(cfg, hr, rng.choice(h))]) if h else [ord("a")]
         emit(lines, cfg, ALGOS, h, n, rng, all_tags=True)
+    # ---- midsize: windows of 2049..2900 columns with short needles whose greedy alignment is poor ----
+    for k in range(12 if tier == "quick" else 120):
+        cfg = rand_cfg(rng)[:3] + "0"
+        W = rng.randint(2049, 2900)
+        m = rng.randint(2, 6)
+        word = [rng.choice([ord("x"), ord("y"), ord("z")]) for _ in range(m)]
+        filler = [rng.choice([ord("q"), ord("_"), ord("0")]) for _ in range(W)]
+        # a scattered (poor) occurrence early, a compact word-boundary occurrence late
+        h = list(filler)
+        p = 1
+        for c in word:
+            h[p] = c
+            p += rng.randint(2, 5)
+        q = rng.randint(W // 2, W - m - 2)
+        h[q - 1] = ord(" ")
+        h[q:q + m] = word
+        emit(lines, cfg, "FG", h, word, rng)
     # ---- limits ----
     nl = 6 if tier == "quick" else 40
     for k in range(nl):
